@@ -513,12 +513,14 @@ func sweepGit(g *tr.G, s string, roleA string, posA int, roleB string, posB int,
 	g.Emit(in, true, "sweep", "sweep-git", "sweep-ctx"+strconv.Itoa(ctx))
 }
 
-func sweepOne(g *tr.G, i int, s, kind string, full bool) {
+// sweepOne puts the text s through the roles.  level 2: every position at context 1, one position
+// at contexts 3 and 0, six git wrappers; level 1: one position per role and context, three git
+// wrappers; level 0: context 1 only, one position per role, one git wrapper.
+func sweepOne(g *tr.G, i int, s, kind string, level int) {
 	hdr := &mdiff.FileInfo{Left: "l", Right: "r"}
 	for ri, role := range sweepRoles {
-		// context 1: every position; context 3 and 0: one position each, rotating with the text
 		for pos := 0; pos < 3; pos++ {
-			if full || pos == (i+ri)%3 {
+			if level == 2 || pos == (i+ri)%3 {
 				var fi *mdiff.FileInfo
 				if (i+ri+pos)%4 == 0 {
 					fi = hdr
@@ -526,33 +528,86 @@ func sweepOne(g *tr.G, i int, s, kind string, full bool) {
 				sweepEmit(g, s, role, pos, i, 1, fi, kind)
 			}
 		}
+		if level == 0 {
+			continue
+		}
 		sweepEmit(g, s, role, (i+ri)%3, i+1, 3, nil, kind)
 		if role != "ctx" {
 			sweepEmit(g, s, role, (i+ri)%2, i, 0, nil, kind) // two-line edits only: no one-line side
 		}
 	}
+	if level == 0 {
+		sweepGit(g, s, []string{"del", "repX", "add"}[i%3], i%2, []string{"repY", "ctx", "del"}[i%3], (i+1)%3, 1)
+		return
+	}
 	sweepGit(g, s, "del", 0, "repY", 1, 1)
 	sweepGit(g, s, "repX", 1, "ctx", i%3, 1)
 	sweepGit(g, s, "add", 0, "del", 2, 1)
-	if full {
+	if level == 2 {
 		sweepGit(g, s, "del", 1, "add", 2, 1)
 		sweepGit(g, s, []string{"del", "repX", "add"}[i%3], i%2, []string{"repY", "ctx", "del"}[i%3], (i+1)%2, 3)
 		sweepGit(g, s, "repX", i%2, "del", (i+1)%2, 0)
 	}
 }
 
+// markerTails: what a line text must be (or start with) for the written line - one or two marker
+// bytes in front of the text - to be, or to start with, one of the words the readers and patch
+// tools look for: every proper suffix of every such word, alone and followed by an ordinary byte.
+func markerTails() []string {
+	words := []string{"--- ", "+++ ", "*** ", "@@ -1,2 +1,2 @@", "-- ", "---", "***************", "*** 1,2 ****", "--- 1,2 ----",
+		"\\ No newline at end of file", "diff --git a/f b/f", "index 83a4f1..9bc2d0 100644", "< ", "> ", "! ", "+ ", "- ", "  ", "1a2", "1,2c3,4", "3d2",
+		"Binary files a and b differ", "Only in a: f", "new file mode 100644", "deleted file mode 100644", "rename from a", "GIT binary patch", "From 4a5b6c Mon Sep 17 00:00:00 2001", "-- ", "2.43.0"}
+	seen := map[string]bool{}
+	var out []string
+	for _, w := range words {
+		n := len(w)
+		for k := 0; k < n && k <= 4; k++ {
+			for _, t := range []string{w[k:], w[k:] + "x", w[k:min(n, k+4)]} {
+				if !seen[t] {
+					seen[t] = true
+					out = append(out, t)
+				}
+			}
+		}
+	}
+	return out
+}
+
 func sweep(g *tr.G) {
 	short := sweepTexts(2) // 157 texts
 	for i, s := range short {
-		sweepOne(g, i, s, "short", true)
+		sweepOne(g, i, s, "short", 2)
 	}
+	// length 3: over the four bytes that mark hunk lines and headers in the quick tier, over all twelve in the thorough tier
 	if g.Thorough() {
 		for i, s := range sweepTexts(3)[len(short):] {
-			sweepOne(g, i, s, "len3", i%4 == 0)
+			sweepOne(g, i, s, "len3", 1+(i+1)%4/3)
+		}
+	} else {
+		save := sweepBytes
+		sweepBytes = []byte{'-', '+', ' ', '@'}
+		for i, s := range sweepTexts(3)[21:] {
+			sweepOne(g, i, s, "len3", 0)
+		}
+		sweepBytes = save
+	}
+	for i, s := range markerTails() {
+		sweepOne(g, i, s, "marker-tail", g.Scale(0, 1))
+	}
+	// every single byte value (a line is any newline-free string), alone and in front of / behind a marker byte
+	for b := 0; b < 256; b++ {
+		if b == '\n' || bytes.IndexByte(sweepBytes, byte(b)) >= 0 {
+			continue
+		}
+		sweepOne(g, b, string([]byte{byte(b)}), "byte", 0)
+		if g.Thorough() {
+			sweepOne(g, b, string([]byte{'-', byte(b)}), "byte", 0)
+			sweepOne(g, b+1, string([]byte{byte(b), ' '}), "byte", 0)
+			sweepOne(g, b+2, string([]byte{'+', '+', byte(b)}), "byte", 0)
 		}
 	}
 	for i := 0; i < g.Scale(150, 4000); i++ {
-		sweepOne(g, i, sweepRandomText(g.R), "random", false)
+		sweepOne(g, i, sweepRandomText(g.R), "random", 1)
 	}
 }
 
